@@ -51,6 +51,13 @@ def check (spec0):
     mon  = {}
     def bad (monitor, key, msg):
         viol.append (dict (monitor = monitor, key = key, msg = msg))
+    # ---- the number a pulse has within its object (what the writer of per-object attachments names) counts the
+    # object's own pulses in table order
+    mon ['relative-numbers'] = 1
+    for gx in m.geo:
+        if [p.n for p in gx.pulses] != list (range (len (gx.pulses))):
+            bad ('relative-numbers', 'per-object-index', 'object %s: pulses numbered %s within the object, its block has rows 1..%d' % (gx.tag, [p.n + 1 for p in gx.pulses] [:14], len (gx.pulses)))
+            break
     # ---- geometry table vs expected blocks
     rep = report.parse (common.guarded (m.wires_as_mininec, 'wires_as_mininec'))
     mon ['table'] = 1
